@@ -109,6 +109,7 @@ and parse_instr toks : tinstr * string list =
     let args, rest = take_operands [] rest in
     (TFold (zi f, zi init, args), rest)
   | "cutoff" :: tg :: c :: rest -> (TCutoff (parse_operand tg, parse_cutoff c), rest)
+  | "export" :: o :: rest -> (TExport (parse_operand o), rest)
   | "bind" :: lhs :: rest ->
     let f, rest = parse_bindfn rest in
     (TBind (parse_operand lhs, f), rest)
@@ -134,6 +135,8 @@ let parse_op (line : string) : op =
     OpBind (ni lhs, f)
   | ["cutoff"; n; c] -> OpSetCutoff (ni n, parse_cutoff c)
   | ["observe"; n] -> OpObserve (ni n)
+  | ["observeexport"; k] -> OpObserveExport (ni k)
+  | ["mapexport"; f; k] -> OpMapExport (zi f, ni k)
   | ["cloneobs"; o] -> OpCloneObs (ni o)
   | ["dropobs"; o] -> OpDropObs (ni o)
   | ["disallow"; o] -> OpDisallow (ni o)
@@ -154,6 +157,8 @@ let parse_op (line : string) : op =
   | ["isstable"] -> OpIsStable
   | ["stats"] -> OpStats
   | ["setmaxheight"; n] -> OpSetMaxHeight (zi n)
+  | ["dropnode"; h] -> OpDropNode (ni h)
+  | ["dropvar"; x] -> OpDropVar (ni x)
   | ["crashat"; k] -> OpCrashAt (ni k)
   | _ -> fail ("op: " ^ line)
 
@@ -239,13 +244,21 @@ let show_kind (s : state) (x : node) =
   | KBindLhs b ->
     (match nth_opt s.binds b with
      | Some bd -> Printf.sprintf "BindLhs(lhs=%s,rhs=%s,created=%s)" (ns bd.b_lhs)
-                    (match bd.b_rhs with Some r -> ns r | None -> "-") (show_nats bd.b_created)
+                    (match bd.b_rhs with Some r -> ns r | None -> "-")
+                    (show_nats (List.filter (fun r -> match nth_opt s.nodes r with Some x -> x.n_live | None -> false) bd.b_created))
      | None -> "BindLhs(?)")
   | KBindMain (_, lc) -> "BindMain(lhs_change=" ^ ns lc ^ ")"
 
 let show_scope (s : state) = function
   | STop -> "T"
-  | SBind b -> (match nth_opt s.binds b with Some bd -> "B" ^ ns bd.b_lhs_change | None -> "B?")
+  | SBind b ->
+    (match nth_opt s.binds b with
+     | Some bd ->
+       if not bd.b_live then "Bdead"
+       else (match nth_opt s.nodes bd.b_lhs_change with
+           | Some lc when lc.n_live -> "B" ^ ns bd.b_lhs_change
+           | _ -> "B?")
+     | None -> "B?")
 
 let dump (s : state) : string list =
   let l1 = Printf.sprintf "status=%s stab=%s rch_len=%s rch_lower=%s nq=%d ahh_len=%s ahh_seen=%s nahh=%d"
